@@ -102,6 +102,8 @@ def check(ctx):
             ctx.ob('R2', fi, 'unit of the free energy', oku, 'electron volt' if oku else
                    f'the free energy is computed in {unit_text(u)} although it is documented and consumed (thresholds, plots) as eV')
         san = bool(d is not None and d.sanitized)
+        if not san and (d is None or d.mono is None or d.mono_unknown):
+            san = None  # the value went through something outside the model: whether it was cleaned there is not known
         ctx.ob('R3', fi, e['node'], san, 'np.nan_to_num applied to the stored array' if san else
                'the stored free energy can contain inf / nan (never-visited voxels have p = 0): graph construction and plots receive '
                'non-finite energies')
